@@ -148,7 +148,9 @@ HeaderVerdicts(st) ==
         THEN {V("C07", "header fields do not equal the state's height / network / fee pool / fee multiplier / DOSC speed / tree roots", "")} ELSE {})
   \cup (IF st.height > 0 /\ ((st.height - 1) \notin DOMAIN HistMap(st) \/ hd.prev # HistMap(st)[st.height - 1])
         THEN {V("C07", "previous-hash is not the hash of the parent header held in the history tree", "")} ELSE {})
-  \cup (IF st.unknownHist # 0 \/ DOMAIN HistMap(st) # 0..(st.height - 1)
+  \* (a lineage fabricated at a height keeps whatever older entries it was given: only the part grown since is exact)
+  \cup (IF st.unknownHist # 0 \/ (st.histBase = 0 /\ DOMAIN HistMap(st) # 0..(st.height - 1))
+           \/ ~(st.histBase..(st.height - 1) \subseteq DOMAIN HistMap(st)) \/ \E x \in DOMAIN HistMap(st) : x >= st.height
         THEN {V("C07", "the history tree does not hold exactly the ancestor heights", "")} ELSE {})
 
 SealVerdicts(r) ==
@@ -196,6 +198,21 @@ RestartVerdicts(r) ==
 
 InitVerdicts(r) == StateVerdicts(r.post)
 
+\* ---- voting power as the stake set reports it (C13) --------------------------------------------------------------------
+VotesVerdicts(r) ==
+    LET sm == StakeMap(r.pre) IN
+       (IF \E row \in RangeS(r.rows) : row.votes # Votes(sm, r.epoch, row.pk)
+        THEN {V("C13", "a key's voting power is not the sum of its registered stakes with start <= epoch < end", "")} ELSE {})
+  \cup (IF r.total # TotalVotes(sm, r.epoch) THEN {V("C13", "total voting power is not the sum of the stakes active in the epoch", "")} ELSE {})
+
+\* ---- Merkle proofs (C07): rows [tree, kind, ok, n] tally what verify() returned ----------------------------------
+\* genuine proofs (presence, absence, typed accessors, roots) must verify; every tampering must not
+ProofVerdicts(r) ==
+    { V("C07", "a genuine proof of " \o row.kind \o " in the " \o row.tree \o " tree does not verify against the header's root", "") :
+        row \in {x \in RangeS(r.rows) : x.kind \in {"present", "absent", "typed-get", "typed-present", "root-is-header", "sorted-position"} /\ ~x.ok} }
+    \cup { V("C07", "a tampered proof (" \o row.kind \o ") in the " \o row.tree \o " tree verifies", "") :
+        row \in {x \in RangeS(r.rows) : x.kind \in {"tamper-value", "tamper-absent", "tamper-key", "tamper-root", "tamper-present"} /\ x.ok} }
+
 Verdicts(r) ==
     CASE r.ev = "batch" -> BatchVerdicts(r)
       [] r.ev = "seal" -> SealVerdicts(r)
@@ -203,6 +220,9 @@ Verdicts(r) ==
       [] r.ev = "block" -> BlockVerdicts(r)
       [] r.ev = "restart" -> RestartVerdicts(r)
       [] r.ev = "init" -> InitVerdicts(r)
+      [] r.ev = "proofs" -> ProofVerdicts(r)
+      [] r.ev = "jump" -> StateVerdicts(r.post)
+      [] r.ev = "votes" -> VotesVerdicts(r)
       [] OTHER -> {}
 
 \* ---- agreement claims: values that the properties require to be functions of their key over the whole trace ----
